@@ -39,3 +39,10 @@ check("C02", "model_checking",
 check("C11", "model_checking",
       "Every datagram handed to the send socket in the sweep (all cells, sizes 28/48..1024, tos, pattern, ttl, boundary initial sequences) is decoded by the independent RFC decoder and compared by TLC with the Wire!Encode table (target, TTL, TOS, DF, carrier field, identifier, size, pattern, length consistency, ICMP/UDP checksums).",
       TRUSTED, "TLC trace validation with the TLA+ Encode table as oracle (C11_Wire, C11_OneDatagram) + TLC model checking of spec/Wire.tla", "7 C11")
+
+check("C12", "model_checking",
+      "Weakest fit for the technique (pure bit layout), decided with a TLA+ table: Layout.tla holds every field's RFC position; TLC checks the tables tile the fixed headers and that SetInt is a lens; every set/get performed on the real views over random non-zero buffers is logged and TLC checks the header afterwards equals Layout!SetInt(before) (frame condition included), the value read back is the value truncated to the width, constructors succeed exactly from the minimum size.",
+      TRUSTED, "TLC model checking of spec/Layout.tla lemmas + TLC trace validation with spec/mon/MonPacket.tla (C12_Get/Set/Frame/Ctor)", "7 C12")
+check("C13", "model_checking",
+      "Every checksum computed by the real codec over (pseudo header +) data is recomputed by TLC with Checksum!Rfc1071 over the logged 16-bit words and the datagram with the checksum inserted must fold to 0xFFFF; Paris datagrams captured from the real Channel must carry the sequence in the checksum field and verify; the swap lemma is model-checked for all 2^16 sequences.",
+      TRUSTED, "TLC model checking of the Paris swap lemma (spec/Checksum.tla) + TLC trace validation with spec/mon/MonPacket.tla (C13_Value/Verifies/Paris)", "7 C13")
